@@ -26,7 +26,8 @@ def Cases(tier):
   return cases + semrun.Reproducers(PROP)
 
 
-REQUIRED = ['fam_made_with_own_rules', 'fam_made_with_limit',
+REQUIRED = ['fam_swap_bindings', 'fam_clone_limited_twice', 'fam_arg_inside_list',
+            'fam_made_with_own_rules', 'fam_made_with_limit',
             'fam_make_order_chain', 'make_fresh', 'make_same_functor_other_binding',
             'make_same_functor_same_binding', 'make_functor_of_result',
             'make_two_args', 'make_arg_through_chain', 'make_arg_direct']
